@@ -120,6 +120,120 @@ pub fn run(args: &[String]) -> String {
             }
             "HOLDS bound: all 16,777,216 three-byte streams x 6 probe suffixes; 10,000 four-byte streams of prefix-like bytes".into()
         }
+        // C07, thorough tier: ALL 2^32 four-byte streams (16 threads): bound on consecutive 'no event yet', and after an
+        // event/error as last output one probe byte must decode as on a fresh decoder
+        "resync4" => {
+            let set: u8 = args[1].parse().unwrap();
+            let sc = if set == 1 { "resync1" } else { "resync2" };
+            let found = std::sync::Arc::new(std::sync::Mutex::new(None::<[u8; 4]>));
+            let mut hs = Vec::new();
+            for t in 0u32..16 {
+                let found = found.clone();
+                hs.push(std::thread::spawn(move || {
+                    for a in (t * 16)..(t * 16 + 16) {
+                        for b in 0u32..256 {
+                            if found.lock().unwrap().is_some() {
+                                return;
+                            }
+                            for c in 0u32..256 {
+                                for d in 0u32..256 {
+                                    let by = [a as u8, b as u8, c as u8, d as u8];
+                                    let ok = std::panic::catch_unwind(move || scenario_resync(set, by, 4, [0x1C, 0xF0, 0x1C], false)).unwrap_or(false);
+                                    if !ok {
+                                        *found.lock().unwrap() = Some(by);
+                                        return;
+                                    }
+                                }
+                            }
+                        }
+                    }
+                }));
+            }
+            for h in hs {
+                let _ = h.join();
+            }
+            let r = *found.lock().unwrap();
+            match r {
+                Some(by) => hit(sc, &[by[0] as u64, by[1] as u64, by[2] as u64, by[3] as u64, 4, 0x1C, 0xF0, 0x1C]),
+                None => "HOLDS bound: all 4,294,967,296 four-byte streams (complete for length 4), one probe suffix".into(),
+            }
+        }
+        // C18, thorough tier: long pseudo-random interleavings of all operations, with line noise, Keyboard vs three stages
+        "fuzz" => {
+            let set: u8 = args[1].parse().unwrap();
+            let seed: u64 = args[2].parse().unwrap();
+            let steps: u64 = args[3].parse().unwrap();
+            fn go<S: ScancodeSet>(mut kb: Keyboard<RecordingLayout, S>, mut s: S, seed: u64, steps: u64) -> Option<u64> {
+                let mut p = Ps2Decoder::new();
+                let mut e = EventDecoder::new(RecordingLayout(0), HandleControl::Ignore);
+                let mut x = seed.wrapping_mul(0x9E3779B97F4A7C15) | 1;
+                for i in 0..steps {
+                    x ^= x << 13;
+                    x ^= x >> 7;
+                    x ^= x << 17;
+                    let r = (x >> 11) as u32;
+                    let same = match r % 16 {
+                        0..=7 => {
+                            let bit = (r >> 8) & 1 != 0;
+                            let a = kb.add_bit(bit);
+                            let b = match p.add_bit(bit) {
+                                Ok(Some(byte)) => s.advance_state(byte),
+                                Ok(None) => Ok(None),
+                                Err(er) => Err(er),
+                            };
+                            a == b
+                        }
+                        8 | 9 => {
+                            let w = ((r >> 8) & 0x7FF) as u16;
+                            let a = kb.add_word(w);
+                            let b = match p.add_word(w) {
+                                Ok(byte) => s.advance_state(byte),
+                                Err(er) => Err(er),
+                            };
+                            a == b
+                        }
+                        10 | 11 => {
+                            let by = (r >> 8) as u8;
+                            kb.add_byte(by) == s.advance_state(by)
+                        }
+                        12 => {
+                            kb.clear();
+                            p.clear();
+                            true
+                        }
+                        13 | 14 => {
+                            let k = x_keycode((r >> 8) as u8);
+                            let st = x_state((r >> 16) as u8);
+                            let a = kb.process_keyevent(KeyEvent::new(k, st));
+                            let b = e.process_keyevent(KeyEvent::new(k, st));
+                            a == b
+                        }
+                        _ => {
+                            let h = x_mode((r >> 8) & 1 != 0);
+                            kb.set_ctrl_handling(h);
+                            e.set_ctrl_handling(h);
+                            kb.get_ctrl_handling() == e.get_ctrl_handling()
+                        }
+                    };
+                    if !same {
+                        return Some(i);
+                    }
+                }
+                None
+            }
+            let r = std::panic::catch_unwind(move || {
+                if set == 1 {
+                    go(Keyboard::new(ScancodeSet1::new(), RecordingLayout(0), HandleControl::Ignore), ScancodeSet1::new(), seed, steps)
+                } else {
+                    go(Keyboard::new(ScancodeSet2::new(), RecordingLayout(0), HandleControl::Ignore), ScancodeSet2::new(), seed, steps)
+                }
+            });
+            match r {
+                Ok(None) => format!("HOLDS bound: {} pseudo-random operations (seed {}) on a Keyboard and three separate stages, every result compared", steps, seed),
+                Ok(Some(i)) => format!("FAILS fuzz set={} seed={} first mismatch at step {}", set, seed, i),
+                Err(_) => format!("FAILS fuzz set={} seed={} PANIC", set, seed),
+            }
+        }
         // C19 proper: make/break pairing for every prefix and code (complete)
         "pairing" => {
             let set: u8 = args[1].parse().unwrap();
